@@ -105,6 +105,13 @@ def code_for_string_token(name, value, location):
     assert name is not None
     assert value is not None
     assert len(value) >= 2
+    # Remove a possible string prefix, for example the "u" in: u"\u00dc".
+    while value and value[0] not in "\"'":
+        value = value[1:]
+    if len(value) < 2:
+        raise errors.InterfaceError(
+            "text for %s must be a single character between quotes but is: %s" % (name, _compat.text_repr(value)), location
+        )
     left_quote = value[0]
     right_quote = value[-1]
     assert left_quote in "\"'", "left_quote=%r" % left_quote
